@@ -712,4 +712,513 @@ Section MoveMachine.
     pose proof (Hl st (or_introl eq_refl)) as Hloc.
     destruct st; cbn [local_stmt] in Hloc; try discriminate; cbn [expand_stmt In] in H; destruct H as [<-|[]]; eauto.
   Qed.
+
+  Notation Inv0 := (Inv p nm0 par0 GoodT).
+  Definition Good1 (s : state) : Prop := created_of p s x.
+  Notation InvA := (Inv p nmA parA Good1).
+
+  Lemma staticA : forall s o, Good1 s -> sobj p o <> None -> ~ created_of p s o -> nmA o = sname p o /\ parA o = sparent p o.
+  Proof.
+    intros s o Hg _ Hnc. assert (Hne : o <> x) by (intros ->; contradiction).
+    unfold nm1, par1. rewrite (oid_eqb_neq o x Hne). auto.
+  Qed.
+
+  (* ---- static resolution of the designated import (before the move) ---- *)
+  Lemma up_parents_static s : Inv0 s -> forall k y, created_of p s y ->
+    up_parents k s (Some y) = up_static p k (Some y) /\
+    (forall q, up_static p k (Some y) = Some q -> created_of p s q).
+  Proof.
+    intros HI. pose proof (i_oa p _ _ _ s HI) as HA. induction k as [|k IH]; intros y Cy; cbn [up_parents up_static].
+    - split; [reflexivity|]. intros q E. inversion E; subst. exact Cy.
+    - destruct (objs s y) as [yb|] eqn:Ey; [|exfalso; apply (oa_exists _ _ _ _ _ HA) in Cy; congruence].
+      pose proof (oa_dom _ _ _ _ _ HA y Cy) as Hd. destruct (sobj p y) as [si|] eqn:Es; [|congruence].
+      destruct (oa_static _ _ _ _ _ HA y yb si Ey Es) as (_ & _ & _ & Hp & _). rewrite Hp.
+      destruct (par0 y) as [q|] eqn:Eq.
+      + apply IH. eapply (oa_closed _ _ _ _ _ HA); eassumption.
+      + split; [|intros q E; destruct k; discriminate]. destruct k; reflexivity.
+  Qed.
+
+  Lemma resolve_static s :
+    Inv0 s -> resolve_modname s R lvl mn = static_modname p R lvl mn.
+  Proof.
+    intros HI. pose proof (i_oa p _ _ _ s HI) as HA. unfold resolve_modname, static_modname.
+    destruct (N.eqb lvl 0); [reflexivity|]. cbv zeta.
+    pose proof (created_module p s R miR HR_mod) as CR.
+    destruct (objs s Rm) as [rb|] eqn:Er; [|exfalso; apply (oa_exists _ _ _ _ _ HA) in CR; congruence].
+    assert (Hs : sobj p Rm = Some {| s_tag := if m_pkg miR then T_PACKAGE else T_MODULE; s_kind := if m_pkg miR then K_PACKAGE else K_MODULE;
+                                     s_name := m_name miR; s_parent := match m_parent miR with Some q => Some (q, 0, 0) | None => None end;
+                                     s_doc := m_doc miR |}) by (unfold sobj; cbn [N.eqb]; rewrite HR_mod; reflexivity).
+    destruct (oa_static _ _ _ _ _ HA Rm rb _ Er Hs) as (Ht & _). cbn [s_tag] in Ht.
+    unfold tag_of. rewrite Er, Ht, HR_mod.
+    assert (Hpk : N.eqb (if m_pkg miR then T_PACKAGE else T_MODULE) T_PACKAGE = m_pkg miR) by (destruct (m_pkg miR); reflexivity).
+    rewrite Hpk.
+    destruct (up_parents_static s HI (N.to_nat (if m_pkg miR then lvl - 1 else lvl)) Rm CR) as [E Hq].
+    rewrite E.
+    assert (Haux : forall u : option oid, (forall q, u = Some q -> created_of p s q) ->
+                   match u with Some q => Some (full_name s q ++ mn) | None => None end =
+                   match u with Some q => Some (skey p q ++ mn) | None => None end).
+    { intros [q|] Hu; [|reflexivity]. rewrite (full_name_key p nm0 par0 _ s q HA (Hu q eq_refl)). reflexivity. }
+    apply Haux. exact Hq.
+  Qed.
+
+  Lemma module_at_D nm' par' Good' s :
+    Inv p nm' par' Good' s -> key p nm' par' Dm = skey p Dm -> module_at s (skey p Dm) = Some Dm.
+  Proof.
+    intros HI Hk. pose proof (i_oa p _ _ _ s HI) as HA. pose proof (i_or p _ _ _ s HI) as HR'.
+    pose proof (created_module p s D miD HD_mod) as CD.
+    unfold module_at. rewrite <- Hk, (or_complete _ _ _ _ _ HR' Dm CD).
+    destruct (objs s Dm) as [db|] eqn:Ed; [|exfalso; apply (oa_exists _ _ _ _ _ HA) in CD; congruence].
+    assert (Hs : sobj p Dm = Some {| s_tag := if m_pkg miD then T_PACKAGE else T_MODULE; s_kind := if m_pkg miD then K_PACKAGE else K_MODULE;
+                                     s_name := m_name miD; s_parent := match m_parent miD with Some q => Some (q, 0, 0) | None => None end;
+                                     s_doc := m_doc miD |}) by (unfold sobj; cbn [N.eqb]; rewrite HD_mod; reflexivity).
+    destruct (oa_static _ _ _ _ _ HA Dm db _ Ed Hs) as (Ht & _). cbn [s_tag] in Ht.
+    unfold tag_of. rewrite Ed, Ht. destruct (m_pkg miD); reflexivity.
+  Qed.
+
+  (* ---- the invariant with the two phases ----
+     `ex` is the module (if any) whose processModule is about to start: getProcessedModule has been called for it. *)
+  Inductive fvcase (ex : option N) (s : state) (fr : frame) : Prop :=
+  | fv_before q : f_todo fr = q ++ MResolve lvl mn :: MEnsure :: T1 -> fvcase ex s fr
+  | fv_resolved : f_todo fr = MEnsure :: T1 -> f_modname fr = Some (skey p Dm) -> fvcase ex s fr
+  | fv_ensured q : T1 = q ++ f_todo fr -> f_modname fr = Some (skey p Dm) -> f_modobj fr = Some Dm ->
+                   (~ In D (unproc s) \/ ex = Some D) -> fvcase ex s fr.
+
+  Definition FV (ex : option N) (s : state) : Prop :=
+    forall fr, In fr (frames s) -> f_mod fr = R -> desig_in (f_todo fr) = true -> fvcase ex s fr.
+
+  Definition aliasD (s : state) : Prop := exists db, objs s Dm = Some db /\ nget xname (o_alias db) = Some (keyA x).
+  Definition Dproc (s : state) : Prop := ~ In D (unproc s) /\ forall fr, In fr (frames s) -> f_mod fr <> D.
+
+  Record Inv2x (ex : option N) (s : state) : Prop := {
+    i2_p0 : dpendb s = true -> Inv0 s;
+    i2_p1 : dpendb s = false -> InvA s /\ aliasD s /\ Dproc s;
+    i2_dtop : forall fr, In fr (tl (frames s)) -> f_mod fr <> D;
+    i2_fv : FV ex s }.
+  Notation Inv2 := (Inv2x None).
+
+  Lemma Inv2_ctl ex s : Inv2x ex s -> Ctl p s.
+  Proof.
+    intros H. destruct (dpendb s) eqn:E; [exact (i_ctl p _ _ _ s (i2_p0 ex s H E))|].
+    destruct (i2_p1 ex s H E) as (HI & _). exact (i_ctl p _ _ _ s HI).
+  Qed.
+  Lemma Inv2_suffix ex s fr : Inv2x ex s -> In fr (frames s) ->
+    exists mi pre, modinfo_of p (f_mod fr) = Some mi /\ expand_stmts (m_stmts mi) = pre ++ f_todo fr.
+  Proof.
+    intros H. destruct (dpendb s) eqn:E; [exact (i_suffix p _ _ _ s (i2_p0 ex s H E) fr)|].
+    destruct (i2_p1 ex s H E) as (HI & _). exact (i_suffix p _ _ _ s HI fr).
+  Qed.
+
+  Lemma fvcase_mono ex ex' s s' fr :
+    (forall m, In m (unproc s') -> In m (unproc s)) -> (ex = Some D -> ex' = Some D \/ ~ In D (unproc s')) ->
+    fvcase ex s fr -> fvcase ex' s' fr.
+  Proof.
+    intros Hsub Hex [q E|E1 E2|q E1 E2 E3 E4]; [eapply fv_before; eassumption|apply fv_resolved; assumption|].
+    eapply fv_ensured; try eassumption. destruct E4 as [E4|E4].
+    - left. intros Hin. apply E4. apply Hsub. exact Hin.
+    - destruct (Hex E4) as [E5|E5]; [right; exact E5|left; exact E5].
+  Qed.
+
+  (* frames of D only hold statement operations *)
+  Lemma D_frame_stmts ex s fr : Inv2x ex s -> In fr (frames s) -> f_mod fr = D ->
+    forall op, In op (f_todo fr) -> exists i st, op = MStmt i st.
+  Proof.
+    intros H Hin Hm op Hop. destruct (Inv2_suffix ex s fr H Hin) as (mi & pre & Hmi & He). rewrite Hm, HD_mod in Hmi.
+    inversion Hmi; subst mi. apply (expand_local_only (m_stmts miD) 1 HD_leaf). fold (expand_stmts (m_stmts miD)).
+    rewrite He. apply in_or_app. right. exact Hop.
+  Qed.
+
+  (* ---- processModule starts: the phase does not change ---- *)
+  Lemma memN_remove1 a m u : a <> m -> memN a (remove1 m u) = memN a u.
+  Proof.
+    intros Hne. induction u as [|y u IH]; cbn [remove1 memN]; [reflexivity|].
+    destruct (N.eqb_spec y m) as [->|Hy]; cbn [memN].
+    - destruct (N.eqb_spec m a); [congruence|reflexivity].
+    - rewrite IH. reflexivity.
+  Qed.
+
+  Lemma dpendb_begin s m s' : begin_module p s m = Next s' -> dpendb s' = dpendb s.
+  Proof.
+    intros Hb. destruct (begin_module_ctl p _ _ _ Hb) as (mi & Hmi & Hmst & Hin & Hun & Hfr & _).
+    unfold dpendb. rewrite Hun, Hfr. cbn [existsb f_mod f_todo].
+    destruct (N.eq_dec m R) as [->|Hne].
+    - rewrite HR_mod in Hmi. inversion Hmi; subst mi. rewrite N.eqb_refl. fold (desig_in (expand_stmts (m_stmts miR))).
+      rewrite desig_expand_R. cbn [andb]. rewrite orb_true_r. apply memN_In in Hin. rewrite Hin. reflexivity.
+    - rewrite (memN_remove1 R m (unproc s)) by congruence. rewrite (proj2 (N.eqb_neq m R) Hne). reflexivity.
+  Qed.
+
+  Lemma begin_objs_other s m s' o : begin_module p s m = Next s' -> o <> (m, 0, 0) -> objs s' o = objs s o.
+  Proof.
+    intros Hb Hne. destruct (begin_module_inv p _ _ _ Hb) as (mi & _ & _ & _ & ->). cbn [set_frames objs].
+    match goal with |- objs (upd_obj ?s0 _ ?f) o = _ => destruct (objs s0 (m, 0, 0)) as [mb|] eqn:E; [rewrite (upd_obj_some s0 _ f mb E)|rewrite (upd_obj_none s0 _ f E)] end.
+    - rewrite objs_set_obj_other by exact Hne. reflexivity.
+    - reflexivity.
+  Qed.
+
+  Lemma Inv2_begin s m s' :
+    Inv2x (Some m) s -> begin_module p s m = Next s' -> (forall fr, In fr (frames s) -> f_mod fr <> D) -> Inv2 s'.
+  Proof.
+    intros H Hb HnoD. pose proof (dpendb_begin s m s' Hb) as Hph.
+    destruct (begin_module_ctl p _ _ _ Hb) as (mi & Hmi & Hmst & Hin & Hun & Hfr & _).
+    assert (Hnd : NoDup (unproc s)) by apply (c_nodup p s (Inv2_ctl _ s H)).
+    constructor.
+    - intros E. rewrite Hph in E. eapply Inv_begin; [exact (i2_p0 _ s H E)|exact Hb|exact I].
+    - intros E. rewrite Hph in E. destruct (i2_p1 _ s H E) as (HI & (db & Ed & Ea) & (HDu & HDf)).
+      assert (HmD : m <> D) by (intros ->; contradiction).
+      split; [|split].
+      + eapply Inv_begin; [exact HI|exact Hb|].
+        apply (created_begin p s m s' (i_ctl p _ _ _ s HI) Hb). exact (i_good p _ _ _ s HI).
+      + exists db. rewrite (begin_objs_other s m s' Dm Hb) by (intros E'; inversion E'; congruence). auto.
+      + split.
+        * rewrite Hun. intros Hx. apply (remove1_In_iff m (unproc s) D Hnd) in Hx. tauto.
+        * intros fr. rewrite Hfr. intros [<-|Hf]; [cbn [f_mod]; exact HmD|apply HDf; exact Hf].
+    - rewrite Hfr. cbn [tl]. exact HnoD.
+    - intros fr. rewrite Hfr. intros [<-|Hf] Hm Hd; cbn [f_mod f_todo] in *.
+      + subst m. rewrite HR_mod in Hmi. inversion Hmi; subst mi. apply (fv_before _ _ _ PRE). cbn [f_todo]. apply expand_R.
+      + eapply fvcase_mono; [| |apply (i2_fv _ s H fr Hf Hm Hd)].
+        * rewrite Hun. intros a Ha. apply (remove1_In_iff m (unproc s) a Hnd) in Ha. tauto.
+        * intros E. inversion E; subst m. right. rewrite Hun. intros Hx. apply (remove1_In_iff D (unproc s) D Hnd) in Hx. tauto.
+  Qed.
+
+  Lemma Inv2_weaken ex s : Inv2 s -> Inv2x ex s.
+  Proof.
+    intros [A B C' F]. constructor; try assumption. intros fr Hf Hm Hd.
+    eapply fvcase_mono; [| |apply (F fr Hf Hm Hd)]; [auto|discriminate].
+  Qed.
+
+  (* ---- processModule ends ---- *)
+  Lemma Inv2_finish s fr rest :
+    Inv2 s -> frames s = fr :: rest -> f_todo fr = [] ->
+    Ctl p (set_frames (set_mst s (f_mod fr) PROCESSED) rest) ->
+    Inv2 (set_frames (set_mst s (f_mod fr) PROCESSED) rest).
+  Proof.
+    intros H Hf Ht HC'. set (s' := set_frames (set_mst s (f_mod fr) PROCESSED) rest).
+    assert (Hph : dpendb s' = dpendb s).
+    { unfold dpendb, s'. cbn [set_frames set_mst unproc frames]. rewrite Hf. cbn [existsb]. rewrite Ht.
+      cbn [desig_in existsb]. rewrite andb_false_r. reflexivity. }
+    constructor.
+    - intros E. rewrite Hph in E. apply Inv_finish; [exact (i2_p0 _ s H E)|exact Hf|exact Ht|exact HC'|exact I].
+    - intros E. rewrite Hph in E. destruct (i2_p1 _ s H E) as (HI & HAl & (HDu & HDf)). split; [|split].
+      + apply Inv_finish; [exact HI|exact Hf|exact Ht|exact HC'|].
+        apply (created_finish p s fr rest Hf Ht). exact (i_good p _ _ _ s HI).
+      + exact HAl.
+      + split; [exact HDu|]. intros fr0 Hin. apply HDf. rewrite Hf. right. exact Hin.
+    - intros fr0 Hin. apply (i2_dtop _ s H). rewrite Hf. cbn [tl]. unfold s' in Hin. cbn [set_frames frames] in Hin.
+      destruct rest; [destruct Hin|right; exact Hin].
+    - intros fr0 Hin Hm Hd. eapply fvcase_mono; [| |apply (i2_fv _ s H fr0); [rewrite Hf; right; exact Hin|exact Hm|exact Hd]]; [auto|discriminate].
+  Qed.
+
+  (* ---- one micro-operation that is not the designated import ---- *)
+  Definition ensure_target (s : state) (en : option oid) : option N :=
+    match en with
+    | Some o => match mst s (fst (fst o)) with UNPROCESSED => Some (fst (fst o)) | _ => None end
+    | None => None
+    end.
+
+  Lemma ensure_alt s en :
+    ensure p s en = match ensure_target s en with Some m => begin_module p s m | None => Next s end.
+  Proof. unfold ensure, ensure_target. destruct en as [o|]; [|reflexivity]. destruct (mst s (fst (fst o))); reflexivity. Qed.
+
+  Lemma desig_frame_phase0 ex s fr : Inv2x ex s -> In fr (frames s) -> f_mod fr = R -> desig_in (f_todo fr) = true -> dpendb s = true.
+  Proof.
+    intros _ Hin Hm Hd. unfold dpendb. apply orb_true_iff. right. apply existsb_exists. exists fr. split; [exact Hin|].
+    rewrite Hm, N.eqb_refl, Hd. reflexivity.
+  Qed.
+
+  Lemma Inv2_other s fr rest op todo s1 fr1 en :
+    Inv2 s -> frames s = fr :: rest -> f_todo fr = op :: todo ->
+    exec_op s (with_todo todo fr) op = (s1, fr1, en) ->
+    N.eqb (f_mod fr) R && is_desig op = false ->
+    Inv2x (ensure_target (set_frames s1 (fr1 :: rest)) en) (set_frames s1 (fr1 :: rest)) /\ (en <> None -> f_mod fr <> D).
+  Proof.
+    intros H Hf Ht He Hnd. set (s2 := set_frames s1 (fr1 :: rest)).
+    pose proof (Inv2_ctl _ s H) as HC. pose proof (Ctl_op p s fr rest op todo s1 fr1 en HC Hf He) as HC2. fold s2 in HC2.
+    pose proof (ctl_exec_op s (with_todo todo fr) op) as Hctl. pose proof (exec_op_frame s (with_todo todo fr) op) as Hfr.
+    rewrite He in Hctl, Hfr. cbn [fst snd] in Hctl, Hfr. destruct Hfr as (Hfm & Hft). cbn [with_todo f_mod f_todo] in Hfm, Hft.
+    destruct (Inv2_suffix _ s fr H ltac:(rewrite Hf; left; reflexivity)) as (mi & pre & Hmi & Hexp). rewrite Ht in Hexp.
+    assert (Hph : dpendb s2 = dpendb s).
+    { unfold dpendb, s2. cbn [set_frames unproc frames]. destruct Hctl as (_ & -> & _). rewrite Hf. cbn [existsb].
+      rewrite Hfm, Hft, Ht. cbn [desig_in existsb]. fold (desig_in todo).
+      destruct (N.eqb (f_mod fr) R); cbn [andb] in *; [rewrite Hnd; reflexivity|reflexivity]. }
+    assert (Hop_name : forall o a mi', op = MImportName o a -> modinfo_of p (f_mod fr) = Some mi' -> ~ In a (exports_of_mod mi')).
+    { intros o a mi' Hop Hmi' Hin. rewrite Hmi in Hmi'. inversion Hmi'; subst mi'.
+      assert (Hx : In (MImportName o a) (expand_stmts (m_stmts mi))) by (rewrite Hexp, Hop; apply in_or_app; right; left; reflexivity).
+      destruct (In_expand_from_ImportName _ _ _ _ Hx) as (lv & m' & nms & Hst & Hoa).
+      destruct (Honly _ mi _ Hmi Hst (o, a) Hoa Hin) as [E1 E2]. cbn [snd] in E2.
+      rewrite E1, N.eqb_refl, Hop in Hnd. cbn [andb is_desig] in Hnd. rewrite E2, N.eqb_refl in Hnd. discriminate. }
+    assert (Hop_all : forall mi', op = MImportAll -> modinfo_of p (f_mod fr) = Some mi' -> exports_of_mod mi' = []).
+    { intros mi' Hop Hmi'. rewrite Hmi in Hmi'. inversion Hmi'; subst mi'.
+      assert (Hx : In MImportAll (expand_stmts (m_stmts mi))) by (rewrite Hexp, Hop; apply in_or_app; right; left; reflexivity).
+      destruct (In_expand_from_ImportAll _ _ Hx) as (lv & m' & Hst). exact (Honly _ mi _ Hmi Hst). }
+    assert (HenD : en <> None -> f_mod fr <> D).
+    { intros Hen HmD. destruct (D_frame_stmts _ s fr H ltac:(rewrite Hf; left; reflexivity) HmD op ltac:(rewrite Ht; left; reflexivity)) as (i & st & ->).
+      cbn [exec_op] in He. inversion He. congruence. }
+    split; [|exact HenD]. constructor.
+    - (* before the move *)
+      intros E. rewrite Hph in E. pose proof (i2_p0 _ s H E) as HI.
+      exact (Inv_op p nm0 par0 H0 GoodT (static0 p) s fr rest op todo s1 fr1 en HI Hf Ht He HC2 I Hop_name Hop_all).
+    - (* after the move *)
+      intros E. rewrite Hph in E. destruct (i2_p1 _ s H E) as (HI & (db & Ed & Ea) & (HDu & HDf)).
+      assert (HmD : f_mod fr <> D) by (apply HDf; rewrite Hf; left; reflexivity).
+      assert (HG2 : Good1 s2).
+      { apply (created_after p nmA parA Good1 s fr rest op todo s1 fr1 HI Hf Ht Hctl Hfm Hft). left. exact (i_good p _ _ _ s HI). }
+      split; [|split].
+      + exact (Inv_op p nmA parA H1 Good1 staticA s fr rest op todo s1 fr1 en HI Hf Ht He HC2 HG2 Hop_name Hop_all).
+      + destruct (op_triple p nmA parA H1 Good1 staticA s fr rest op todo s1 fr1 en HI Hf Ht He Hop_name Hop_all) as (_ & _ & M).
+        destruct (M Dm db Ed) as (db' & Ed' & _ & _ & Hal). exists db'. split; [exact Ed'|].
+        rewrite Hal; [exact Ea|]. intros E'. inversion E'. congruence.
+      + split.
+        * unfold s2. cbn [set_frames unproc]. destruct Hctl as (_ & -> & _). exact HDu.
+        * intros fr0. unfold s2. cbn [set_frames frames]. intros [<-|Hin]; [rewrite Hfm; exact HmD|apply HDf; rewrite Hf; right; exact Hin].
+    - intros fr0 Hin. apply (i2_dtop _ s H). rewrite Hf. exact Hin.
+    - (* the local variables of the frames of R *)
+      intros fr0. unfold s2 at 1. cbn [set_frames frames]. intros [<-|Hin] Hm Hd.
+      + rewrite Hfm in Hm. rewrite Hft in Hd.
+        assert (Hd' : desig_in (f_todo fr) = true) by (rewrite Ht; cbn [desig_in existsb]; fold (desig_in todo); rewrite Hd; apply orb_true_r).
+        assert (Hin0 : In fr (frames s)) by (rewrite Hf; left; reflexivity).
+        pose proof (desig_frame_phase0 _ s fr H Hin0 Hm Hd') as Hp0. pose proof (i2_p0 _ s H Hp0) as HI.
+        destruct (i2_fv _ s H fr Hin0 Hm Hd') as [q Eq|E1 E2|q E1 E2 E3 E4].
+        * rewrite Ht in Eq. destruct q as [|op0 q']; cbn [app] in Eq; injection Eq as Eop Etodo.
+          -- (* MResolve *)
+             rewrite Eop in He. cbn [exec_op] in He.
+             assert (Hfr1 : fr1 = with_modvars (resolve_modname s (f_mod (with_todo todo fr)) lvl mn) None (with_todo todo fr))
+               by congruence.
+             rewrite Hfr1. apply fv_resolved; [cbn [with_modvars with_todo f_todo]; exact Etodo|].
+             cbn [with_modvars f_modname with_todo f_mod]. rewrite Hm, (resolve_static s HI). exact HR_res.
+          -- apply (fv_before _ _ _ q'). rewrite Hft. exact Etodo.
+        * rewrite Ht in E1. injection E1 as Eop Etodo. rewrite Eop in He. cbn [exec_op] in He.
+          change (f_modname (with_todo todo fr)) with (f_modname fr) in He. rewrite E2 in He.
+          rewrite (module_at_D nm0 par0 GoodT s HI eq_refl) in He.
+          assert (Hfr1 : fr1 = with_modvars (Some (skey p Dm)) (Some Dm) (with_todo todo fr)) by congruence.
+          assert (Hen1 : en = Some Dm) by congruence.
+          rewrite Hfr1, Hen1.
+          apply (fv_ensured _ _ _ []); [cbn [with_modvars with_todo f_todo app]; symmetry; exact Etodo|reflexivity|reflexivity|].
+          unfold ensure_target. cbn [fst]. destruct (mst s2 D) eqn:Em; [right; reflexivity| |];
+            left; intros Hx; apply (c_unproc p s2 HC2) in Hx; destruct Hx as [_ Hx]; congruence.
+        * rewrite Ht in E1. destruct (T1_split q op todo E1) as [_ B]. destruct (B Hd) as [Hnd' Hk].
+          assert (Hfr1 : fr1 = with_todo todo fr /\ unproc s1 = unproc s).
+          { split; [|destruct Hctl as (_ & Hu & _); exact Hu]. destruct Hk as [(o & ->)|(o & a & ->)]; cbn [exec_op] in He.
+            - destruct (f_modname (with_todo todo fr)); [|inversion He; reflexivity].
+              destruct (f_modobj (with_todo todo fr)) as [mo|]; [|inversion He; reflexivity].
+              destruct (tag_of s mo) as [tg|]; [|inversion He; reflexivity]. destruct (N.eqb tg T_PACKAGE); inversion He; reflexivity.
+            - destruct (f_modname (with_todo todo fr)); inversion He; reflexivity. }
+          destruct Hfr1 as [-> Hu].
+          apply (fv_ensured _ _ _ (q ++ [op])); [rewrite <- app_assoc; exact E1|exact E2|exact E3|].
+          left. unfold s2. cbn [set_frames unproc]. rewrite Hu. destruct E4 as [E4|E4]; [exact E4|discriminate].
+      + eapply fvcase_mono; [| |apply (i2_fv _ s H fr0); [rewrite Hf; right; exact Hin|exact Hm|exact Hd]].
+        * unfold s2. cbn [set_frames unproc]. destruct Hctl as (_ & -> & _). auto.
+        * discriminate.
+  Qed.
+
+  (* ---- the designated import: the move ---- *)
+  Lemma existsb_rest_false s fr rest :
+    Ctl p s -> frames s = fr :: rest -> f_mod fr = R ->
+    existsb (fun fr0 => N.eqb (f_mod fr0) R && desig_in (f_todo fr0)) rest = false.
+  Proof.
+    intros HC Hf Hm. pose proof (c_fnodup p s HC) as Hnd. rewrite Hf in Hnd. cbn [map] in Hnd. apply NoDup_cons_iff in Hnd.
+    destruct Hnd as [Hni _]. destruct (existsb _ rest) eqn:E; [|reflexivity]. exfalso.
+    apply existsb_exists in E. destruct E as (fr0 & Hin & Hx). apply andb_true_iff in Hx. destruct Hx as [Hx _].
+    apply N.eqb_eq in Hx. apply Hni. rewrite Hm, <- Hx. apply in_map. exact Hin.
+  Qed.
+
+  Lemma Inv2_desig s fr rest op todo s1 fr1 en :
+    Inv2 s -> frames s = fr :: rest -> f_todo fr = op :: todo ->
+    exec_op s (with_todo todo fr) op = (s1, fr1, en) ->
+    f_mod fr = R -> is_desig op = true ->
+    en = None /\ Inv2 (set_frames s1 (fr1 :: rest)).
+  Proof.
+    intros H Hf Ht He Hm Hd. set (s2 := set_frames s1 (fr1 :: rest)).
+    pose proof (Inv2_ctl _ s H) as HC. pose proof (Ctl_op p s fr rest op todo s1 fr1 en HC Hf He) as HC2. fold s2 in HC2.
+    assert (Hin0 : In fr (frames s)) by (rewrite Hf; left; reflexivity).
+    assert (Hd' : desig_in (f_todo fr) = true) by (rewrite Ht; cbn [desig_in existsb]; rewrite Hd; reflexivity).
+    pose proof (i2_p0 _ s H (desig_frame_phase0 _ s fr H Hin0 Hm Hd')) as HI.
+    pose proof (i_oa p _ _ _ s HI) as HA. pose proof (i_or p _ _ _ s HI) as HR'.
+    destruct (i_suffix p _ _ _ s HI fr Hin0) as (mi & pre & Hmi & Hexp). rewrite Hm, HR_mod in Hmi. inversion Hmi; subst mi.
+    rewrite Ht in Hexp.
+    (* where the walk of R stands *)
+    assert (Hcase : exists q, T1 = q ++ op :: todo /\ f_modname fr = Some (skey p Dm) /\ f_modobj fr = Some Dm /\ ~ In D (unproc s)).
+    { destruct (i2_fv _ s H fr Hin0 Hm Hd') as [q Eq|E1 E2|q E1 E2 E3 E4].
+      - exfalso. rewrite Ht in Eq. rewrite expand_R, Eq in Hexp.
+        assert (Hq : PRE = pre ++ q).
+        { apply (app_inv_tail (MResolve lvl mn :: MEnsure :: T1)). rewrite <- app_assoc. exact Hexp. }
+        destruct q as [|op0 q']; cbn [app] in Eq; injection Eq as Eop _.
+        + rewrite Eop in Hd. discriminate.
+        + pose proof desig_PRE as HP. rewrite Hq, desig_in_app in HP. cbn [desig_in existsb] in HP. rewrite <- Eop, Hd in HP.
+          rewrite orb_true_r in HP. discriminate.
+      - exfalso. rewrite Ht in E1. injection E1 as Eop _. rewrite Eop in Hd. discriminate.
+      - exists q. rewrite Ht in E1. repeat split; try assumption. destruct E4 as [E4|E4]; [exact E4|discriminate]. }
+    destruct Hcase as (q & ET & Emn & Emo & HDu).
+    destruct (T1_split q op todo ET) as [A _]. destruct (A Hd) as [Eop Htodo].
+    (* the operation *)
+    rewrite Eop in He. cbn [exec_op] in He. change (f_modname (with_todo todo fr)) with (f_modname fr) in He.
+    change (f_modobj (with_todo todo fr)) with (f_modobj fr) in He. change (f_mod (with_todo todo fr)) with (f_mod fr) in He.
+    rewrite Emn, Emo, Hm in He.
+    assert (Hen : en = None) by congruence.
+    assert (Hfr1 : fr1 = with_todo todo fr) by congruence.
+    assert (Hs1 : s1 = import_name s R (skey p Dm) (Some Dm) xname n) by congruence.
+    split; [exact Hen|].
+    (* the objects involved *)
+    pose proof (created_module p s R miR HR_mod) as CR. pose proof (created_module p s D miD HD_mod) as CD.
+    assert (HRu : ~ In R (unproc s)).
+    { rewrite <- Hm. exact (op_not_unproc p nm0 par0 GoodT s fr rest HI Hf). }
+    assert (Cx : created_of p s x).
+    { split; [exact Hxdom|right]. cbn [fst snd]. intros [Hp|(fr0 & st & Hin & Hmd & _)]; [contradiction|].
+      rewrite Hf in Hin. destruct Hin as [<-|Hin]; [congruence|]. apply (i2_dtop _ s H fr0); [rewrite Hf; exact Hin|exact Hmd]. }
+    destruct (objs s Rm) as [rb|] eqn:Er; [|exfalso; apply (oa_exists _ _ _ _ _ HA) in CR; congruence].
+    destruct (objs s Dm) as [db|] eqn:Ed; [|exfalso; apply (oa_exists _ _ _ _ _ HA) in CD; congruence].
+    assert (Hexports : exports_of s Rm = exports_of_mod miR) by exact (exports_static p nm0 par0 GoodT s R miR rb HI HR_mod HRu Er).
+    assert (Hcont : nget xname (contents_of s Dm) = Some x).
+    { destruct (oa_complete _ _ _ _ _ HA x Dm Cx (sparent_x p D ix Hix Hxdom)) as (db' & Ed' & Hg).
+      rewrite Ed in Ed'. inversion Ed'; subst db'. unfold contents_of. rewrite Ed, <- Hxname. exact Hg. }
+    assert (Hlisted : match o_all db with Some a => memN xname a | None => false end = false).
+    { destruct (i_meta p _ _ _ s HI D db miD Ed HD_mod) as [_ B]. destruct (B HDu) as [_ Hall]. rewrite Hall.
+      pose proof HD_all as HDa. destruct (last_all (m_stmts miD) None) as [a|]; [|reflexivity]. apply memN_false. exact (HDa a eq_refl). }
+    assert (Hs1' : s1 = reparent s x Rm n).
+    { rewrite Hs1. unfold import_name. cbv zeta. rewrite Hexports. unfold handle_reexport.
+      rewrite (proj2 (memN_In n (exports_of_mod miR)) HR_exp), Hcont, Ed, Hlisted. reflexivity. }
+    destruct (reparent_move p R D ix xname n H0 H1 HRD Hix Hxdom Hxname (created_of p s) s HA HR' Cx CR CD)
+      as (A1 & R1 & M1 & (db' & Ed' & Ea') & Hctl).
+    rewrite <- Hs1' in A1, R1, M1, Ed', Hctl.
+    assert (Hfm : f_mod fr1 = f_mod fr) by (rewrite Hfr1; reflexivity).
+    assert (Hft : f_todo fr1 = todo) by (rewrite Hfr1; reflexivity).
+    assert (Hcr : forall o, created_of p s o <-> created_of p s2 o).
+    { intros o. unfold s2. rewrite (created_after p nm0 par0 GoodT s fr rest op todo s1 fr1 HI Hf Ht Hctl Hfm Hft o).
+      split; [auto|]. intros [Hc|(_ & _ & _ & st & Hop)]; [exact Hc|]. rewrite Eop in Hop. discriminate. }
+    assert (HIA : InvA s2).
+    { apply (Inv_cross p nm0 par0 GoodT nmA parA Good1 s fr rest op todo s1 fr1 Dm HI Hf Ht Hctl Hfm Hft HC2).
+      - apply Hcr. exact Cx.
+      - eapply OA_ext; [exact Hcr|exact A1].
+      - eapply OR_ext; [exact Hcr|exact R1].
+      - exact M1. }
+    assert (Hph : dpendb s2 = false).
+    { unfold dpendb, s2. cbn [set_frames unproc frames existsb]. destruct Hctl as (_ & -> & _).
+      rewrite (proj2 (memN_false R (unproc s)) HRu), Hfm, Hft, Htodo, andb_false_r.
+      rewrite (existsb_rest_false s fr rest HC Hf Hm). reflexivity. }
+    constructor.
+    - intros E. rewrite Hph in E. discriminate.
+    - intros _. split; [exact HIA|]. split; [exists db'; split; [exact Ed'|exact Ea']|]. split.
+      + unfold s2. cbn [set_frames unproc]. destruct Hctl as (_ & -> & _). exact HDu.
+      + intros fr0. unfold s2. cbn [set_frames frames]. intros [<-|Hin]; [rewrite Hfm, Hm; exact HRD|].
+        apply (i2_dtop _ s H fr0). rewrite Hf. exact Hin.
+    - intros fr0 Hin. apply (i2_dtop _ s H fr0). rewrite Hf. exact Hin.
+    - intros fr0. unfold s2. cbn [set_frames frames]. intros [<-|Hin] Hm0 Hd0.
+      + rewrite Hft, Htodo in Hd0. discriminate.
+      + exfalso. pose proof (existsb_rest_false s fr rest HC Hf Hm) as Hx.
+        assert (Hy : existsb (fun fr1 => N.eqb (f_mod fr1) R && desig_in (f_todo fr1)) rest = true).
+        { apply existsb_exists. exists fr0. split; [exact Hin|]. rewrite Hm0, N.eqb_refl, Hd0. reflexivity. }
+        congruence.
+  Qed.
+
+  (* ---- one step ---- *)
+  Lemma Inv2_step s s' : Inv2 s -> step p s = Next s' -> Inv2 s'.
+  Proof.
+    intros H Hs. pose proof (Inv2_ctl _ s H) as HC. pose proof (Ctl_step p s s' HC Hs) as HC'.
+    destruct (step_cases p _ _ Hs) as [(Hf & m & rest & Hu & Hb)|[(fr & rest & Hf & Ht & ->)|
+      (fr & rest & op & todo & s1 & fr1 & en & Hf & Ht & He & Hen)]].
+    - apply (Inv2_begin s m s' (Inv2_weaken _ s H) Hb). rewrite Hf. intros fr [].
+    - apply Inv2_finish; assumption.
+    - destruct (N.eqb (f_mod fr) R && is_desig op) eqn:Ed.
+      + apply andb_true_iff in Ed. destruct Ed as [Em Ed]. apply N.eqb_eq in Em.
+        destruct (Inv2_desig s fr rest op todo s1 fr1 en H Hf Ht He Em Ed) as [-> H2]. cbn [ensure] in Hen.
+        inversion Hen; subst s'. exact H2.
+      + destruct (Inv2_other s fr rest op todo s1 fr1 en H Hf Ht He Ed) as [H2 HnD].
+        rewrite ensure_alt in Hen. destruct (ensure_target (set_frames s1 (fr1 :: rest)) en) as [m|] eqn:Et.
+        * apply (Inv2_begin _ m s' H2 Hen). cbn [set_frames frames]. intros fr0 [<-|Hin].
+          -- pose proof (exec_op_frame s (with_todo todo fr) op) as Hfr. rewrite He in Hfr. cbn [fst snd] in Hfr.
+             destruct Hfr as [Hfm _]. rewrite Hfm. apply HnD. intros ->. discriminate.
+          -- apply (i2_dtop _ s H fr0). rewrite Hf. exact Hin.
+        * inversion Hen; subst s'. exact H2.
+  Qed.
+
+  (* ---- the run ---- *)
+  Lemma Inv2_modules_valid s : Inv2 s -> modules_valid p s.
+  Proof.
+    intros H. destruct (dpendb s) eqn:E; [exact (Inv_modules_valid p _ _ _ s (i2_p0 _ s H E))|].
+    destruct (i2_p1 _ s H E) as (HI & _). exact (Inv_modules_valid p _ _ _ s HI).
+  Qed.
+
+  Lemma run_machine_ok2 fuel : forall s,
+    Inv2 s -> (mu p s < fuel)%nat ->
+    exists s', run_machine p fuel s = Ok s' /\ Inv2 s' /\ frames s' = [] /\ unproc s' = [].
+  Proof.
+    induction fuel as [|f IH]; intros s HI Hlt; [lia|]. cbn [run_machine].
+    destruct (step p s) as [s1| |k] eqn:Es.
+    - apply IH; [eapply Inv2_step; eassumption|]. pose proof (step_mu p _ _ Es). lia.
+    - exists s. destruct (step_halt p s Es). auto.
+    - exfalso. exact (step_not_stuck p s k (Inv2_ctl _ s HI) (Inv2_modules_valid s HI) Es).
+  Qed.
+
+  Lemma Inv2_init sigma : Permutation sigma (module_ids p) -> Inv2 (init_state p sigma).
+  Proof.
+    intros Hperm. pose proof (Inv_init p H0 Hwf sigma Hperm) as HI.
+    assert (Hfr : frames (init_state p sigma) = []).
+    { unfold init_state. cbn [set_unproc frames]. rewrite frames_add_modules. reflexivity. }
+    assert (Hph : dpendb (init_state p sigma) = true).
+    { unfold dpendb. apply orb_true_iff. left. apply memN_In. unfold init_state. cbn [set_unproc unproc].
+      eapply Permutation_in; [apply Permutation_sym; exact Hperm|]. apply module_ids_In. rewrite HR_mod. discriminate. }
+    constructor.
+    - intros _. exact HI.
+    - intros E. rewrite Hph in E. discriminate.
+    - rewrite Hfr. intros fr [].
+    - intros fr. rewrite Hfr. intros [].
+  Qed.
+
+  (* the registry at the end of the run: the static one, with x and what is below it under R.n *)
+  Theorem moved_static sigma :
+    Permutation sigma (module_ids p) ->
+    exists s, run_state p sigma = Ok s /\
+      (forall k e, reg_entry s k = Some e <->
+                   exists o si, sobj p o = Some si /\ keyA o = k /\ e = (s_tag si, s_kind si, s_doc si)) /\
+      (exists names, contents_view s (skey p Dm) = Some names /\ ~ In xname names) /\
+      (exists names, contents_view s (skey p Rm) = Some names /\ In n names) /\
+      alias_view s (skey p Dm) xname = Some (keyA x).
+  Proof.
+    intros Hperm. unfold run_state.
+    destruct (run_machine_ok2 (run_fuel p) (init_state p sigma) (Inv2_init sigma Hperm) (init_mu p sigma Hperm))
+      as (s & Hrun & H2 & Hfr & Hun).
+    exists s. split; [exact Hrun|].
+    assert (Hph : dpendb s = false) by (unfold dpendb; rewrite Hfr, Hun; reflexivity).
+    destruct (i2_p1 _ s H2 Hph) as (HI & (db & Ed & Ea) & _).
+    pose proof (i_oa p _ _ _ s HI) as HA. pose proof (i_or p _ _ _ s HI) as HR'.
+    assert (Hcr : forall o, created_of p s o <-> sobj p o <> None).
+    { intros o. unfold created_of, pending_of. rewrite Hfr, Hun. split; [tauto|]. intros Hd. split; [exact Hd|]. right.
+      intros [[]|(fr & st & [] & _)]. }
+    assert (Hinfo : forall o ob si, objs s o = Some ob -> sobj p o = Some si ->
+                                    (o_tag ob, o_kind ob, o_doc ob) = (s_tag si, s_kind si, s_doc si)).
+    { intros o ob si Ho Hs. destruct (oa_static _ _ _ _ _ HA o ob si Ho Hs) as (T & K & _ & _ & Dc).
+      rewrite T, K. f_equal. destruct o as [[m i] j]. cbn [fst snd] in Dc.
+      destruct (N.eq_dec i 0) as [->|Hi]; [|apply Dc; exact Hi].
+      unfold sobj in Hs. cbn [N.eqb] in Hs. destruct (N.eqb j 0) eqn:Ej; [|discriminate]. apply N.eqb_eq in Ej. subst j.
+      destruct (modinfo_of p m) as [mi|] eqn:Em; [|discriminate]. inversion Hs; subst si. cbn [s_doc].
+      destruct (i_meta p _ _ _ s HI m ob mi Ho Em) as [_ B]. rewrite Hun in B. destruct (B (fun z => z)) as [-> _]. reflexivity. }
+    assert (HkD : keyA Dm = skey p Dm) by (apply (key1_nonsub p R D ix n Hix); apply Dm_nonsub; exact Hix).
+    assert (HkR : keyA Rm = skey p Rm) by (apply (key1_nonsub p R D ix n Hix); apply Rm_nonsub; exact HRD).
+    pose proof (created_module p s D miD HD_mod) as CD. pose proof (created_module p s R miR HR_mod) as CR.
+    assert (Cx : created_of p s x) by (apply Hcr; exact Hxdom).
+    assert (HgD : pget (skey p Dm) (allobjs s) = Some Dm) by (rewrite <- HkD; apply (or_complete _ _ _ _ _ HR'); exact CD).
+    assert (HgR : pget (skey p Rm) (allobjs s) = Some Rm) by (rewrite <- HkR; apply (or_complete _ _ _ _ _ HR'); exact CR).
+    assert (Hnx : nmA x = n /\ parA x = Some Rm) by (unfold nm1, par1; rewrite oid_eqb_refl; auto).
+    destruct Hnx as [Hnx Hpx].
+    split; [|split; [|split]].
+    - intros k e. unfold reg_entry. split.
+      + destruct (pget k (allobjs s)) as [o|] eqn:Ek; [|discriminate].
+        destruct (or_sound _ _ _ _ _ HR' k o Ek) as [Co Ko]. apply Hcr in Co.
+        destruct (objs s o) as [ob|] eqn:Eo; [|discriminate]. destruct (sobj p o) as [si|] eqn:Es; [|congruence].
+        intros Hx. inversion Hx; subst e. exists o, si. split; [exact Es|]. split; [exact Ko|]. eapply Hinfo; eassumption.
+      + intros (o & si & Hs & Hk & ->).
+        assert (Co : created_of p s o) by (apply Hcr; congruence).
+        pose proof (or_complete _ _ _ _ _ HR' o Co) as Hget. rewrite Hk in Hget. rewrite Hget.
+        destruct (objs s o) as [ob|] eqn:Eo; [|exfalso; apply (oa_exists _ _ _ _ _ HA) in Co; congruence].
+        f_equal. eapply Hinfo; eassumption.
+    - exists (map fst (o_contents db)). unfold contents_view. rewrite HgD, Ed. split; [reflexivity|].
+      apply nget_None_notin. destruct (nget xname (o_contents db)) as [o|] eqn:Eg; [|reflexivity]. exfalso.
+      destruct (oa_contents _ _ _ _ _ HA Dm db xname o Ed Eg) as (Co & Po & No).
+      assert (Hox : o <> x) by (intros ->; rewrite Hpx in Po; inversion Po; congruence).
+      unfold nm1, par1 in Po, No. rewrite (oid_eqb_neq o x Hox) in Po, No. apply Hox.
+      apply H0; [apply (oa_dom _ _ _ _ _ HA); exact Co|exact Hxdom|].
+      apply (key_same p nm0 par0); [rewrite (sparent_x p D ix Hix Hxdom); exact Po|congruence].
+    - destruct (oa_complete _ _ _ _ _ HA x Rm Cx Hpx) as (rb & Er & Hg). rewrite Hnx in Hg.
+      exists (map fst (o_contents rb)). unfold contents_view. rewrite HgR, Er. split; [reflexivity|].
+      apply nget_In in Hg. apply in_map_iff. exists (n, x). auto.
+    - unfold alias_view. rewrite HgD, Ed. exact Ea.
+  Qed.
 End MoveMachine.
